@@ -122,6 +122,8 @@ def answer (line : String) : String :=
       "k2=" ++ (if k2Check a b sc then "1" else "0:" ++ k2Why a b sc),
       -- hypothesis of `asa_F1_iso_quiet` / second half of `asa_F1_idempotent_partial` (class ISO, static)
       "iso=" ++ (if isoCheck a b sc then "1" else "0:" ++ isoWhy a b sc),
+      -- phase shape of the route commands (hypotheses of NA.Route.routes_covered, proved in asa_routes_covered_every_step)
+      "rshape=" ++ (if !routesInputOK a b then "-" else if routeShapeCheck a b r.script then "1" else "0"),
       "script=" ++ "|".intercalate lines,
       "hits=" ++ countHits r.hits,
       "exec=" ++ exec,
